@@ -706,7 +706,7 @@ def _ops():
         if not c:
             return op_autoshape(prs, rnd)
         sh = rnd.choice(c)
-        k = rnd.randrange(5)
+        k = rnd.randrange(7)
         shadow_first = rnd.random() < 0.5
         if shadow_first:
             sh.shadow.inherit = rnd.choice([True, False])  # a:effectLst present before the fill / line children are added
@@ -726,6 +726,17 @@ def _ops():
             sh.fill.solid()
             sh.fill.fore_color.rgb = RGBColor(3, 3, 3)
             sh.fill.fore_color.brightness = 0.5
+        elif k == 5:
+            # a fill kind is selected and its colours are only looked at (or one of the two is set): whatever reading creates is complete
+            sh.fill.patterned()
+            _ = sh.fill.fore_color.type, sh.fill.back_color.type
+            if rnd.random() < 0.5:
+                sh.fill.back_color.theme_color = MSO_THEME_COLOR.ACCENT_3
+        elif k == 6:
+            sh.fill.solid()
+            _ = sh.fill.fore_color.type
+            sh.line.fill.solid()
+            _ = sh.line.color.type, sh.line.fill.fore_color.type
         else:
             sh.line.fill.solid()
             sh.line.color.rgb = RGBColor(4, 4, 4)
